@@ -6,7 +6,8 @@
    normalisation, pycode_new), tied to the code by the correspondence run.  rt_wf_deep / rt_extra_deep
    are boolean predicates evaluated on every corpus code object by the check (group wf-monitor). *)
 From PCD Require Import Base.PyBase Base.Cfg Model.Data Model.Consts Model.Blocks Model.CodeData
-  Proofs.C01_Statements Proofs.RoundTrip.
+  Proofs.C01_Statements Proofs.RoundTrip Proofs.InstrCodec.
+From PCD Require Gen.Src.
 
 (* For every interpreter configuration and every well-formed code object, at any nesting depth:
    if decoding succeeds, encoding the result gives back the identical code object - every field of the
@@ -28,3 +29,12 @@ Theorem C01_one_level : forall c code ks d d',
   encode_code c d' = OK code.
 Proof. exact K3_level_x. Qed.
 Print Assumptions C01_one_level.
+
+(* leaf arithmetic and constants of the model are those of the current source (Gen/Src.v is regenerated
+   from code_data/_blocks.py and _code_data.py on every run) *)
+Theorem C01_instrsize_is_the_source : forall a, PCD.Gen.Src.instrsize a = PCD.Model.Blocks.instrsize a.
+Proof. exact src_instrsize_tie. Qed.
+Example C01_constants_are_the_source :
+  PCD.Gen.Src.c_int_upper_limit = c_int_upper_limit /\ PCD.Gen.Src.c_int_length = c_int_length /\
+  PCD.Gen.Src.FN_FLAGS = FN_FLAGS /\ PCD.Gen.Src.FN_TYPE_FLAGS = map fst FN_TYPE_FLAGS.
+Proof. repeat split; vm_compute; reflexivity. Qed.
